@@ -1,14 +1,18 @@
 (* C01 — each construct acts on every input stack independently (stream semantics).
 
-   Engine side, proved here for the model of the pull engine (zw/Engine.v) over
-   the ops of concatenation, `,` (op_merge/op_tine), `||`, `[ ]`, let / infix
-   (op_subx), if-then-else, assertions, words, bindings, closure creation,
-   `apply` and the closure operators `*`/`+`: whatever stacks a chain has
-   processed, once it reports exhaustion every op of it is in exactly the
-   state it was constructed in.  The op of format strings is outside this
-   theorem (its model is tied to the implementation and to the specification
-   by the correspondence check only); so is the equality engine =
-   specification (Den.v), which the check tests on generated programs. *)
+   Engine side, proved here for the model of the pull engine (zw/Engine.v) and
+   for EVERY op of it - concatenation, `,` (op_merge/op_tine), `||`, `[ ]`,
+   let / infix (op_subx), if-then-else, assertions, words, bindings, closure
+   creation, `apply`, the closure operators `*`/`+` and format strings
+   (op_format with its chain of stringers): whatever stacks a chain has
+   processed, once it reports exhaustion every op of it is in the state it was
+   constructed in.  The one thing that is not: the position counter of a format
+   op, which op_format::next sets back when the next stack arrives rather than
+   at exhaustion (`reset` abstracts from it; C01_format_counter_is_stale shows
+   the stronger statement is false of the model, and the model is tied to the
+   implementation on exactly this by the correspondence check).  The equality
+   engine = specification (Den.v) is tested by the check on generated programs,
+   not proved. *)
 From Coq Require Import ZArith NArith List Bool String.
 From Dwgrep Require Import Radix Value Words Tree Engine Build Quiet EngineProofs BuildProofs.
 Import ListNotations.
@@ -22,20 +26,40 @@ Theorem C01_pull_invariant : forall P blks, Forall quiet blks -> forall f env m 
   inv m' /\ cinv c' /\ shape c c' /\ cpost c' (isnone r) /\ (r = None -> quiet m').
 Proof. exact main. Qed.
 
+(* the same for the chain of stringers inside a format op *)
+Theorem C01_stringers_invariant : forall P blks, Forall quiet blks -> forall f env parts oslot s r parts' oslot' s' e,
+  Forall pinv parts -> snext P blks f env parts oslot s = Ret (r, parts', oslot', s', e) ->
+  Forall pinv parts' /\ (r = None -> Forall pquiet parts' /\ oslot' = None).
+Proof. intros P blks Q f. exact (proj2 (main_both P blks Q f)). Qed.
+
 (* a pull changes run-time state only: the constructed chain underneath is the same *)
 Theorem C01_pull_keeps_structure : forall P blks, Forall quiet blks -> forall f env m c s r m' c' s' e,
   inv m -> cinv c -> nodone c -> next P blks f env m c s = Ret (r, m', c', s', e) ->
   reset m' = reset m /\ csame c c'.
 Proof. exact mainR. Qed.
 
-(* pulled dry = as constructed, literally *)
+(* pulled dry = pristine again, and the same ops (any chain, format ops included) *)
+Theorem C01_engine_forgets_any : forall P blks, Forall quiet blks -> forall f env m sl s outs m' c' s',
+  quiet m -> drains P blks f env m (LOrigin sl) s outs m' c' s' ->
+  quiet m' /\ reset m' = reset m /\ c' = LOrigin None.
+Proof. exact engine_forgets_any. Qed.
+
+(* so after any number of inputs the chain is pristine and the same ops *)
+Theorem C01_engine_stream_any : forall P blks, Forall quiet blks -> forall f env m a b s outsA mA cA sA outsB mB cB sB,
+  quiet m ->
+  drains P blks f env m (LOrigin (Some a)) s outsA mA cA sA ->
+  drains P blks f env mA (LOrigin (Some b)) sA outsB mB cB sB ->
+  quiet mA /\ reset mA = reset m /\ quiet mB /\ reset mB = reset m.
+Proof. exact engine_stream_any. Qed.
+
+(* without format ops: pulled dry = as constructed, literally *)
 Theorem C01_engine_forgets : forall P blks, Forall quiet blks -> forall f env m sl s outs m' c' s',
-  quiet m -> drains P blks f env m (LOrigin sl) s outs m' c' s' -> m' = m /\ c' = LOrigin None.
+  quiet m -> has_format m = false -> drains P blks f env m (LOrigin sl) s outs m' c' s' -> m' = m /\ c' = LOrigin None.
 Proof. exact engine_forgets. Qed.
 
 (* so the second of two inputs is processed by the very chain the first one met *)
 Theorem C01_engine_stream : forall P blks, Forall quiet blks -> forall f env m a b s outsA mA cA sA outsB mB cB sB,
-  quiet m ->
+  quiet m -> has_format m = false ->
   drains P blks f env m (LOrigin (Some a)) s outsA mA cA sA ->
   drains P blks f env mA (LOrigin (Some b)) sA outsB mB cB sB ->
   drains P blks f env m (LOrigin (Some b)) sA outsB mB cB sB /\ mB = m.
@@ -45,27 +69,50 @@ Proof. exact engine_stream. Qed.
 Theorem C01_quietb_quiet : forall m, quietb m = true -> quiet m.
 Proof. exact quietb_quiet. Qed.
 
-(* the hypotheses hold for EVERY program without format strings: what the builder
-   (build.cc / bindings.cc) produces is a pristine chain with pristine block bodies *)
+(* the hypotheses hold for EVERY program: what the builder (build.cc /
+   bindings.cc) produces is a pristine chain with pristine block bodies
+   (wf_tree: no `,` without branches - the parser never builds one) *)
 Theorem C01_built_programs_are_quiet : forall tc t m blks, wf_tree t = true -> build_program tc t = BOk (m, blks) ->
   quiet m /\ Forall quiet blks.
 Proof. exact build_program_quiet. Qed.
 
-(* hence, for every such program: once pulled dry on one input, the engine is
-   exactly what it was before that input arrived *)
-Theorem C01_every_program_forgets : forall tc P t m blks, wf_tree t = true -> build_program tc t = BOk (m, blks) ->
-  forall f env sl s outs m' c' s', drains P blks f env m (LOrigin sl) s outs m' c' s' -> m' = m /\ c' = LOrigin None.
+(* and a program without format strings is built into a chain without format ops *)
+Theorem C01_built_without_format : forall tc t m blks, nf_tree t = true -> build_program tc t = BOk (m, blks) ->
+  has_format m = false.
+Proof. exact build_program_nf. Qed.
+
+(* hence, for every program: once pulled dry on one input, the engine is
+   pristine again and made of the same ops *)
+Theorem C01_every_program_forgets_any : forall tc P t m blks, wf_tree t = true -> build_program tc t = BOk (m, blks) ->
+  forall f env sl s outs m' c' s', drains P blks f env m (LOrigin sl) s outs m' c' s' ->
+  quiet m' /\ reset m' = reset m /\ c' = LOrigin None.
 Proof.
   intros tc P t m blks W B f env sl s outs m' c' s' D.
   destruct (build_program_quiet tc t m blks W B) as [Qm Qb].
-  exact (engine_forgets P blks Qb f env m sl s outs m' c' s' Qm D).
+  exact (engine_forgets_any P blks Qb f env m sl s outs m' c' s' Qm D).
+Qed.
+
+(* and for every program without format strings it is exactly what it was
+   before that input arrived *)
+Theorem C01_every_program_forgets : forall tc P t m blks, wf_tree t = true -> nf_tree t = true ->
+  build_program tc t = BOk (m, blks) ->
+  forall f env sl s outs m' c' s', drains P blks f env m (LOrigin sl) s outs m' c' s' -> m' = m /\ c' = LOrigin None.
+Proof.
+  intros tc P t m blks W N B f env sl s outs m' c' s' D.
+  destruct (build_program_quiet tc t m blks W B) as [Qm Qb].
+  exact (engine_forgets P blks Qb f env m sl s outs m' c' s' Qm (build_program_nf tc t m blks N B) D).
 Qed.
 
 Print Assumptions C01_built_programs_are_quiet.
+Print Assumptions C01_built_without_format.
+Print Assumptions C01_every_program_forgets_any.
 Print Assumptions C01_every_program_forgets.
 Print Assumptions C01_quietb_quiet.
 Print Assumptions C01_pull_invariant.
+Print Assumptions C01_stringers_invariant.
 Print Assumptions C01_pull_keeps_structure.
+Print Assumptions C01_engine_forgets_any.
+Print Assumptions C01_engine_stream_any.
 Print Assumptions C01_engine_forgets.
 Print Assumptions C01_engine_stream.
 
@@ -105,3 +152,40 @@ Proof. vm_compute. discriminate. Qed.
 Example C01_nonvacuous :
   option_map (@List.length event) (run_tree prog1) = Some 4%nat.
 Proof. vm_compute. reflexivity. Qed.
+
+(* a format string with two splices behind two producers: built pristine, runs, and is covered by the theorems *)
+Definition prog3 : tree :=
+  TCat [TAlt [TConst 1 DDec; TConst 2 DDec];
+        TFormat [TStr [97%N]; TAlt [TConst 3 DDec; TConst 4 DDec]; TStr [98%N]; TRead (nm "dup")]].
+
+Example C01_built_format_is_quiet :
+  wf_tree prog3 = true /\ match built prog3 with Some m => quiet m /\ has_format m = true | None => False end.
+Proof. vm_compute. repeat split; try reflexivity; try (intro; discriminate); repeat constructor. Qed.
+
+Example C01_nonvacuous3 : option_map (@List.length event) (run_tree prog3) = Some 4%nat.
+Proof. vm_compute. reflexivity. Qed.
+
+(* why the statement for format ops is `up to reset`: pulled dry, the chain of
+   prog3 is NOT the chain as constructed (the position counter is stale), though
+   its reset is *)
+Fixpoint drain (limit : nat) (blks : list mach) (m : mach) (c : lctx) (s : store) : option mach :=
+  match limit with
+  | O => None
+  | S l =>
+    match next P0 blks 100 [] m c s with
+    | Ret (Some _, m', c', s', _) => drain l blks m' c' s'
+    | Ret (None, m', _, _, _) => Some m'
+    | _ => None
+    end
+  end.
+
+Example C01_format_counter_is_stale :
+  match build_program tc0 prog3 with
+  | BOk (m, blks) =>
+    match drain 20 blks m (LOrigin (Some [])) [] with
+    | Some m' => m' <> m /\ reset m' = m
+    | None => False
+    end
+  | BErr _ => False
+  end.
+Proof. vm_compute. split; [intro H; discriminate H|reflexivity]. Qed.
